@@ -89,6 +89,11 @@ CHECKS = {
     text="Error-free reads of known haplotypes (single, paired, supplementary, secondary, duplicate, unmapped, stale tags, BX clouds) are tagged with drawn options; the output must be the input record for record except HP/PS/PC, tagged reads must carry their true haplotype in the reported phase set, and swapping the haplotypes of one phase set in the VCF must flip HP for exactly that set. A second campaign in --no-reference mode with planted mismatches and per-base qualities (ploidy 2-4) checks HP = strict arg-max of summed quality, PC = best - second, ties untagged.",
     note="Trusted: read renderer, pysam for BAM comparison; BX cloud pooling is validity-checked only (it is order dependent).",
     ref="DESIGN.md section 4, C10"),
+ "C17": dict(
+    technique="property-based testing (Hypothesis) of the history model-phasing -> haplotag -> partial unphase -> haplotagphase; oracle = the original phasing",
+    text="A known phasing with disjoint phase sets tags error-free reads (haplotag, in-process); a random subset of variants keeps its phase in the VCF given to haplotagphase (defaults, reference); every call phased in the output must have the haplotype order and phase set of the tagging phasing, and calls phased in the input must come out byte-identical in GT/PS. Partial tagging (only the first set's reads keep their tags) exercises the vote-less path.",
+    note="Trusted: C10's helpers (phased VCF writer, read renderer); the proviso that no read overlaps two phase sets is enforced by construction.",
+    ref="DESIGN.md section 4, C17"),
 }
 
 NOT_YET = {}
